@@ -112,6 +112,7 @@ TROW = 11
 
 LABELS = ["int", "str", "tuple", "frozendict", "mixed"]
 DISTS = ["dict", "dict_zeros", "det", "uniform"]
+ABSREPS = ["bool", "bool", "npbool", "npbool", "int"]
 # labels that are falsy in Python (distinct, hashable, mutually unsortable).  Observations: pomdp_build's kind "falsy"
 # (None, '', (), 0 - None being the common 'no signal' label).  States and actions: the private kind "falsy0"
 # (0, '', (), frozendict()) without None, because run_on's own API gives None a meaning there (initial_state=None =
@@ -256,7 +257,8 @@ def make_case(rng, tier, want):
     rep = dict(labels=rng.choice(SLABELS), alabels=rng.choice(SLABELS), olabels=rng.choice(OLABELS),
                explicit_list=rng.random() < 0.5, dist=rng.choice(DISTS), odist=rng.choice(DISTS),
                arr=rng.choice(["torch", "numpy"]), eta3=(not by_action) and rng.random() < 0.7,
-               with_init=rng.random() < 0.8)
+               with_init=rng.random() < 0.8,
+               absrep=rng.choice(ABSREPS))
     closed = gen.ghost_closed(m)
     if not rep["explicit_list"] and not closed and rng.random() < 0.8:
         rep["explicit_list"] = True
@@ -282,7 +284,18 @@ def make_case(rng, tier, want):
     if not machs:
         return None
     m["machs"] = machs
-    return {"m": m, "rep": rep}
+    case = {"m": m, "rep": rep}
+    if "value" in machs and rng.random() < 0.4:
+        # call history "discount sweep over one model object": after the first evaluation the driver sets
+        # pomdp.discount_rate in place and evaluates again; sweep_m is the same instance with the second discount
+        m2 = dict(m)
+        m2["GN"], m2["GD"] = rng.choice([g for g in [(1, 2), (3, 4), (9, 10), (1, 3), (1, 4)] if g != (m["GN"], m["GD"])])
+        m2["machs"] = ["value"]
+        if value_magnitude_ok(m2, True):
+            m2["full"] = 1 if value_magnitude_ok(m2, False) else 0
+            if m2["full"] or not m["ghost"]:
+                case["sweep_m"] = m2
+    return case
 
 
 def make_cases(rng, n, tier, want, ctx=None):
@@ -357,7 +370,8 @@ def make_tiny_case(rng, tier):
     m["D"] = tree_depth(K * NO, 70 if tier == "quick" else 160)
     rep = dict(labels=rng.choice(SLABELS), alabels=rng.choice(SLABELS), olabels=rng.choice(OLABELS),
                explicit_list=rng.random() < 0.5, dist=rng.choice(DISTS), odist=rng.choice(DISTS),
-               arr=rng.choice(["torch", "numpy"]), eta3=False, with_init=True)
+               arr=rng.choice(["torch", "numpy"]), eta3=False, with_init=True,
+               absrep=rng.choice(ABSREPS))
     listed = pb.listed_states(m, rep["explicit_list"])
     m["lst"] = [1 if s in listed else 0 for s in range(m["N"])]
     return {"m": m, "rep": rep}
@@ -524,6 +538,12 @@ class World:
         self.B = B = build_pomdp(mb, rng=rng, **{k: self.rep[k] for k in keys})
         B.m = self.m
         self.p = p = B.pomdp
+        # what is_absorbing returns: a Python bool, a numpy.bool_ (flags looked up in an array, as models built by
+        # TabularMarkovDecisionProcess.from_matrices do) or an int 0 / 1 - all of them say "absorbing" by truthiness
+        absrep = self.rep.get("absrep", "bool")
+        if absrep != "bool":
+            conv = np.bool_ if absrep == "npbool" else int
+            p.is_absorbing = (lambda s, _f=p.is_absorbing, _c=conv: _c(_f(s)))
         self.sl = list(p.state_list)
         self.al = list(p.action_list)
         self.ok = True
@@ -780,21 +800,33 @@ def supp_ge2(post):
     return len([x for x in post if x]) >= 2
 
 
-def judge_value(ctx, idx, case, rec, tamper=None):
+def judge_value(ctx, idx, case, rec, tamper=None, world=None):
+    """One call of the evaluator compared with the exact tables.  Returns the World when everything conformed.
+
+    world=None: first call on a freshly built POMDP (instance case["m"]).  world=W: SECOND call on the same POMDP
+    object after `pomdp.discount_rate` was set in place to the discount of case["sweep_m"] (a discount sweep over one
+    model object); rec then holds the exact tables of case["sweep_m"]."""
     import torch
     torch.set_num_threads(1)
     from msdm.algorithms.fscgradientascent import stochastic_fsc_policy_evaluation_exact as evaluate
-    m, rep = case["m"], case["rep"]
+    second = world is not None
+    m, rep = (case["sweep_m"] if second else case["m"]), case["rep"]
     R = Reporter(ctx, "value", case)
     site = "stochastic_fsc_policy_evaluation_exact"
-    W = World(case)
-    if not W.ok:
-        ctx.skip(W.why)
-        return
-    err = W.matrices()
-    if err is not None:
-        ctx.skip(f"array builders raised {type(err).__name__} (C06/C07's clause)")
-        return
+    sfx = ":second-call-after-discount_rate-changed" if second else ""
+    if second:
+        W = world
+        W.p.discount_rate = float(F(m["GN"], m["GD"]))
+        ctx.count("value_second_calls_after_discount_change")
+    else:
+        W = World(case)
+        if not W.ok:
+            ctx.skip(W.why)
+            return None
+        err = W.matrices()
+        if err is not None:
+            ctx.skip(f"array builders raised {type(err).__name__} (C06/C07's clause)")
+            return None
     A, E, I = W.controller_arrays()
     NN = m["NN"]
     tA, tI = torch.tensor(A, dtype=torch.float64), torch.tensor(I, dtype=torch.float64)
@@ -815,15 +847,16 @@ def judge_value(ctx, idx, case, rec, tamper=None):
             R.fail(f"C09:{site}:absorbing-states-not-cut",
                    f"raised AssertionError: the rows of an absorbing state (whose successors are outside the state list) "
                    f"are used as if the episode continued there")
+            return None
         else:
-            R.fail(f"C09:{site}:raised-{type(e).__name__}" + (":absorbing-outgoing-dynamics" if ghost_shape else ""),
+            R.fail(f"C09:{site}:raised-{type(e).__name__}" + (":absorbing-outgoing-dynamics" if ghost_shape else "") + sfx,
                    f"evaluator raised {e!r}")
-        return
+        return None
     if tamper is not None:
         V = tamper(V)
     if V.shape != (NN, len(W.sl)):
         R.fail(f"C09:{site}:shape", f"state_controller_value has shape {V.shape}")
-        return
+        return None
     ex = [[rat(rec["v"][n][s]) for s in range(m["N"])] for n in range(NN)]
     exg = [[rat(rec["vg"][n][s]) for s in range(m["N"])] for n in range(NN)] if m["full"] else None
 
@@ -834,34 +867,39 @@ def judge_value(ctx, idx, case, rec, tamper=None):
         n, s = bad[0]
         uncut = exg is not None and all(close(V[n2, W.col[s2]], exg[n2][s2]) for n2 in range(NN) for s2 in W.listed)
         at_abs = [(n2, s2) for (n2, s2) in bad if m["abs"][s2]]
-        what = (f"V[node {n}][state {s}] = {V[n, W.col[s]]!r}, exact expected discounted return of running the "
+        pre = ""
+        if second:
+            pre = (f"second evaluation on the same POMDP object after pomdp.discount_rate was changed in place from "
+                   f"{case['m']['GN']}/{case['m']['GD']} to {m['GN']}/{m['GD']}: ")
+        what = (pre + f"V[node {n}][state {s}] = {V[n, W.col[s]]!r}, exact expected discounted return of running the "
                 f"controller from there = {ex[n][s]} (absorbing flags {m['abs']}, {len(bad)} of "
                 f"{NN * len(W.listed)} entries differ, {len(at_abs)} at absorbing states where the return is 0)")
         if uncut:
             R.fail(f"C09:{site}:absorbing-states-not-cut",
                    what + "; the output equals the value of the chain in which absorbing states keep their "
                           "declared outgoing rows (episodes do not end there)", {"bad": bad})
+            return None
         else:
             clause = "absorbing-state-value" if at_abs and len(at_abs) == len(bad) else "node-state-value"
-            R.fail(f"C09:{site}:{clause}", what, {"bad": bad})
-        return
+            R.fail(f"C09:{site}:{clause}{sfx}", what, {"bad": bad})
+        return None
     if rep["with_init"]:
         try:
             sv = to_np(res.state_value).reshape(-1)
             ev = float(res.expected_value)
         except Exception as e:                                       # noqa: BLE001
             R.fail(f"C09:{site}:raised-{type(e).__name__}", f"result fields: {e!r}")
-            return
+            return None
         for s in W.listed:
             e = rat(rec["sv"][s])
             if not close(sv[W.col[s]], e):
-                R.fail(f"C09:{site}:state_value", f"state_value[state {s}] = {sv[W.col[s]]!r}, exact {e} "
+                R.fail(f"C09:{site}:state_value{sfx}", f"state_value[state {s}] = {sv[W.col[s]]!r}, exact {e} "
                                                   f"(initial node distribution {m['iota']}/{m['ND']})")
-                return
+                return None
         e = rat(rec["ev"])
         if not close(ev, e):
-            R.fail(f"C09:{site}:expected_value", f"expected_value = {ev!r}, exact {e} (initial state weights {m['p0']}/{m['ID']})")
-            return
+            R.fail(f"C09:{site}:expected_value{sfx}", f"expected_value = {ev!r}, exact {e} (initial state weights {m['p0']}/{m['ID']})")
+            return None
     # machinery: the driver's float evaluator (used by pipeline B/learn) agrees with the TLA+ oracle here
     Aabs, Eabs = abstract_controller(W, A, E)
     for cut, table in ((True, ex), (False, exg)):
@@ -875,10 +913,11 @@ def judge_value(ctx, idx, case, rec, tamper=None):
     ctx.count("value_cases_conformant")
     vals = {ex[n][s] for n in range(NN) for s in W.listed}
     if len(vals) >= 2 and NN * len([s for s in W.listed if not m["abs"][s]]) >= 2:
-        ctx.nontrivial(digest([digest(m), "value"]))
+        ctx.nontrivial(digest([digest(m), "value", "second-call" if second else "first-call"]))
     if NN >= 2 and any(m["abs"][s] for s in W.listed):
         ctx.sample({"pipeline": "A/value", "instance": {k: m[k] for k in ("N", "K", "NO", "abs", "GN", "GD", "P", "R", "O", "p0", "psi", "eta", "iota")},
                     "rep": rep, "exact_values": [[str(x) for x in r] for r in ex], "real_values": V.tolist()}, limit=3)
+    return W
 
 
 def abstract_controller(W, A, E):
@@ -895,7 +934,13 @@ def abstract_controller(W, A, E):
 
 
 def run_fsc_tlc(ctx, cases, what, extra_invs=()):
+    # batch = the cases, followed by the discount-sweep siblings (record index kept in the case as "_sweep_iid")
     batch = [c["m"] for c in cases]
+    for c in cases:
+        c.pop("_sweep_iid", None)
+        if "sweep_m" in c:
+            batch.append(c["sweep_m"])
+            c["_sweep_iid"] = len(batch)
     cfg = CFG_FSC + "".join(f"INVARIANT {x}\n" for x in extra_invs)
     res = run_tlc(ctx.workdir / "fsc", "C09_FSC", cfg, files={"batch.json": batch},
                   env={"BATCH_FILE": "batch.json"}, coverage=(ctx.tier == "thorough"))
@@ -926,7 +971,15 @@ def judge_fsc_cases(ctx, cases, *, tamper_hist=None, tamper_value=None, mutate_r
             if mutate_records is None:
                 crosscheck_value(i, c["m"], rec)
                 ctx.count("oracle_crosschecks_value")
-            judge_value(ctx, i, c, rec, tamper=tamper_value)
+            W = judge_value(ctx, i, c, rec, tamper=tamper_value)
+            j = c.get("_sweep_iid")
+            if W is not None and j is not None and tamper_value is None:
+                rec2 = per.get(j, {}).get("value", {}).get((), {}).get("rec")
+                if rec2 is None:
+                    raise TLCFailure(f"no value record for the discount-sweep sibling of case {i}")
+                if mutate_records is None:
+                    crosscheck_value(j, c["sweep_m"], rec2)
+                judge_value(ctx, j, c, rec2, world=W)
         if "hist" in got and only in (None, "hist"):
             for h, r in got["hist"].items():
                 nx += 1
@@ -1129,7 +1182,8 @@ def make_learner_case(rng, ghost_p=0.2):
                       obs_kind=rng.choice(["random"] * 6 + ["single", "identity"]), init_on_abs=0.15)
     rep = dict(labels=rng.choice(SLABELS), alabels=rng.choice(SLABELS), olabels=rng.choice(OLABELS),
                explicit_list=True if not gen.ghost_closed(m) else rng.random() < 0.5,
-               dist=rng.choice(DISTS), odist=rng.choice(DISTS), arr="numpy", eta3=False, with_init=True)
+               dist=rng.choice(DISTS), odist=rng.choice(DISTS), arr="numpy", eta3=False, with_init=True,
+               absrep=rng.choice(ABSREPS))
     m.update(NN=1, QD=1, psi=[[1] + [0] * (m["K"] - 1)], ED=1, eta=[[[[1]] * m["NO"]] * m["K"]], ND=1, iota=[1],
              D=1, full=0, open=0, machs=[])
     listed = pb.listed_states(m, rep["explicit_list"])
@@ -1190,9 +1244,14 @@ def run_learner(ctx, case, cfg, tamper=None):
         pol = res.policy
         A, E, I = to_np(pol.action_strategy), to_np(pol.observation_strategy), to_np(pol.initial_state_dist)
     except Exception as e:                                           # noqa: BLE001
-        shape = ":absorbing-outgoing-dynamics" if (m["ghost"] and any(m["abs"][s] for s in W.listed)) else ""
-        ctx.violation(f"C09:{name}.train_on:raised-{type(e).__name__}{shape}",
-                      f"{name}({cfg}).train_on raised {e!r} instead of returning a controller"[:600],
+        # the call site that gave up: innermost frame inside msdm (e.g. improve_node_matrix_constraint's own assertion
+        # on the rows it obtained by dividing the LP solution)
+        import traceback
+        frames = [f for f in traceback.extract_tb(e.__traceback__) if "/msdm/" in f.filename]
+        where = f"{frames[-1].name}" if frames else "unknown"
+        line = (frames[-1].line or "")[:120] if frames else ""
+        ctx.violation(f"C09:{name}.train_on:raised-{type(e).__name__}:{where}",
+                      f"{name}({cfg}).train_on raised {e!r} in {where} ({line}) instead of returning a controller"[:600],
                       {"kind": "learn", "case": case, "cfg": cfg})
         return None
     if tamper is not None:
